@@ -141,6 +141,7 @@ pub fn run(ctx: &Ctx, rep: &mut Report) {
     }
     super::c04::corner_sampler(ctx, rep, PID, 12, &mut r, 20_000, 400_000);
     super::c14::wrap_probe(ctx, rep, PID, crate::gen::pm(&[12]), &mut r);
+    super::c14::giant_buffer_probe(ctx, rep, PID, crate::gen::pm(&[12]), &mut r);
     rep.require("codes_checked");
     rep.extra.insert("exhaustive_codes".into(), J::Bool(true));
     rep.sample(3, || {
